@@ -217,8 +217,8 @@ func pathFromEdge(e Edge, removed map[Edge]bool, target *ssa.BasicBlock) []*ssa.
 
 func init() {
 	register(&Property{
-		ID:  "C14",
-		Run: runC14,
+		ID:      "C14",
+		Run:     runC14,
 		Explain: "(1) layout traces: the field operations of the keytab reader (Keytab.Unmarshal → parsePrincipal → readIntN/readBytes) and writer (Keytab.Marshal → entry.marshal → principal.marshal → marshalString), extracted from the SSA in control-flow order with their format-version conditions and loop context, each equal the sequence of the MIT keytab format (record length, principal with the version-1 component-count adjustment on both sides and the name type omitted in version 1, 32-bit timestamp, 8-bit kvno, 16-bit enctype, 16-bit length + key, optional trailing 32-bit kvno), same widths and the same byte-order selector on both sides; negative record lengths are skipped, not parsed; (2) the look-up filter of Keytab.GetEncryptionKey (realm, component count, every component, key type, kvno or wildcard 0, newest entry; no match ⇒ error; returned kvno belongs to the returned key) on every path; the 32-bit kvno defaults to the 8-bit one only when absent or zero; (3) no reader error is dropped in Unmarshal's call tree. Equality of parsed values with an independent reader for every file is not decided.",
 		NotDecided: []string{
 			"parsed values equal an independent reader's for every file (value property)",
